@@ -24,7 +24,7 @@ META = dict(
     bounds=dict(quick=dict(nice="any int", ionice="class in [-1,5] (or None), level in [-2,9] (or None)", cpus=f"{NCPU} CPUs, symbolic allowed mask, symbolic request incl. duplicates and out-of-range", rlimit="resource index 0..15, soft/hard in [-1, 2^63], limits tuple length 0..3"),
                 thorough=dict(nice="any int", ionice="as quick", cpus="as quick", rlimit="as quick")),
     outside=["more than 6 CPUs", "the C-level packing of the I/O priority word (decided by the cir harness of C17 when present)"],
-    labels=["nice-roundtrip", "ionice-roundtrip", "ionice-invalid-ValueError", "affinity-roundtrip", "affinity-empty-selects-all-eligible", "affinity-invalid-ValueError", "rlimit-roundtrip", "rlimit-not-a-pair-ValueError", "bystander-untouched", "after-fork-targets-the-named-process"],
+    labels=["nice-roundtrip", "ionice-roundtrip", "ionice-invalid-ValueError", "affinity-roundtrip", "affinity-empty-selects-all-eligible", "affinity-invalid-ValueError", "rlimit-roundtrip", "rlimit-not-a-pair-ValueError", "bystander-untouched", "after-fork-targets-the-named-process", "nice-get-errno-protocol"],
 )
 
 
@@ -287,3 +287,72 @@ def after_fork(ctx, what):
             ctx.guard("after-fork-targets-the-named-process", p.rlimit, res, (soft, 2**41))
             ctx.prove(same(ctx, tuple(k.settings[P]["rlimits"].get(res, ())), (soft, 2**41)) and same(ctx, tuple(p.rlimit(res)), (soft, 2**41)), "after-fork-targets-the-named-process", detail="rlimit(set)")
         ctx.prove(same(ctx, snapshot(k, CALLER), mine), "after-fork-targets-the-named-process", detail="the calling process's own settings changed")
+
+
+@harness("C18.getpriority_c")
+def getpriority_c(ctx):
+    """psutil_posix_getpriority, the C wrapper behind nice() (LLVM IR of the current tree, cir engine): getpriority(2) returns the
+    nice value itself, so -1 is both a legitimate answer and the error return and only errno tells them apart.  For every nice value
+    the kernel returns (-1 included) and WHATEVER errno held before the call, a successful call yields that value; a failed call
+    (-1 with errno set by the call) raises OSError."""
+    import z3
+
+    from psv import cir
+    from psv.harness import C17 as c17
+
+    mod = c17.module("_psutil_posix.c")
+    v = dict(prio=ctx.int("kernel_nice", -20, 19), stale=ctx.int("errno_before_the_call", 0, 133), err=ctx.int("errno_of_the_failure", 1, 133), fails=ctx.flag("getpriority_fails"))
+    if ctx.symbolic:
+        prio, stale, err, fails = z3.BitVec("kernel_nice", 32), z3.BitVec("errno_before_the_call", 32), z3.BitVec("errno_of_the_failure", 32), z3.Bool("getpriority_fails")
+        pre = [prio >= -20, prio <= 19, stale >= 0, stale <= 133, err >= 1, err <= 133]
+    else:
+        prio, stale, err, fails = z3.BitVecVal(v["prio"], 32), z3.BitVecVal(v["stale"], 32), z3.BitVecVal(v["err"], 32), z3.BoolVal(bool(v["fails"]))
+        pre = []
+    state = {"ints": [lambda w: z3.BitVecVal(77, w)]}
+
+    def errno_loc(I, st, w, c):
+        if not hasattr(st, "errno_key") or st.errno_key not in st.objs:
+            st.errno_key = st.new_obj("errno", 4, {})
+            I.store(st, cir.Ptr(st.errno_key, 0, 0, 4), 4, stale)
+            st.pc.extend(pre)
+        return cir.Ptr(st.errno_key, 0, 0, 4)
+
+    def getpriority(I, st, w, c, which, who):
+        p = errno_loc(I, st, w, c)
+        old = I.load(st, p, 4, False)
+        I.store(st, p, 4, z3.If(fails, err, old))          # a successful call leaves errno alone
+        st.log.append(("getpriority", who))
+        return z3.If(fails, z3.BitVecVal(-1, 32), prio)
+
+    def build(I, st, w, c, fmt, *a):
+        st.log.append(("build", a))
+        return cir.newobj(I, st, "int")
+
+    def raise_(I, st, w, c, *a):
+        st.log.append(("raise",))
+        return cir.NULL
+
+    stubs = {"@PyArg_ParseTuple": c17.parse_stub(state), "@getpriority": getpriority, "@__errno_location": errno_loc, "@PyErr_SetFromErrno": raise_, "@Py_BuildValue": build, "@Py_IncRef": cir.nop, "@Py_DecRef": cir.nop}
+    I = cir.Interp(mod, stubs)
+    res = I.run("@psutil_posix_getpriority", [cir.NULL, cir.NULL])
+    ok = bool(res)
+    for st, ret in res:
+        if any(x[0] == "raise" for x in st.log):
+            ok &= bool(I.oblige(st, fails, "getpriority: OSError raised although the call succeeded (a stale errno, or the legitimate answer -1, was taken for a failure)"))
+        else:
+            built = [x[1] for x in st.log if x[0] == "build"]
+            ok &= bool(I.oblige(st, z3.And(z3.Not(fails), built[0][0] == prio) if built else z3.BoolVal(False), "getpriority: the value returned is not the kernel's nice value of a successful call"))
+    fs = [f for f in I.findings if f[0].startswith("getpriority:")]
+    m = fs[0][1] if fs else None
+    assign = {}
+    if m is not None:
+        vals = {d.name(): m[d] for d in m.decls()}
+        for nm in ("kernel_nice", "errno_before_the_call", "errno_of_the_failure"):
+            if nm in vals:
+                x = vals[nm].as_long()
+                assign[nm] = x - 2**32 if x >= 2**31 else x
+        if "getpriority_fails" in vals:
+            assign["getpriority_fails"] = bool(vals["getpriority_fails"])
+    ctx.external("nice-get-errno-protocol", ok and not fs, assign, detail=fs[0][0] if fs else "")
+    I.findings = [f for f in I.findings if f not in fs]
+    c17.report(ctx, I, ["memory-in-bounds"], lambda m_: {})
